@@ -52,8 +52,18 @@ func Run(t *testing.T, f func()) {
 		f()
 	})
 	if p != nil {
+		if strings.HasSuffix(fmt.Sprintf("%T", p), "invalidData") {
+			// rapid's "this byte stream is not a valid case" signal must never look like a
+			// real failure to the shrinker: re-raise it from a function of its own.
+			rethrowInvalid(p)
+		}
 		rethrow(p, depth)
 	}
+}
+
+//go:noinline
+func rethrowInvalid(p any) {
+	panic(p)
 }
 
 // origin hashes the panic type and the stack at recover time (which still
